@@ -210,8 +210,9 @@ class Builder(ABC):
             return traj
         finally:
             # Remove the context: this only exists during the simulation of a
-            # trajectory.
-            del self.ctx
+            # trajectory. (It does not exist if its constructor failed.)
+            if 'ctx' in self.__dict__:
+                del self.ctx
 
     def _iterate_mass(self) -> Trajectory:
         """Iterate on starting mass to minimize residual fuel mass."""
